@@ -55,20 +55,32 @@ Theorem C11_prefix_complete : forall r pre, store_ok r = true ->
 Proof. exact prefix_ids_ok. Qed.
 Print Assumptions C11_prefix_complete.
 
-(* IterEncodedObjects(t) succeeds and everything it lists is the content of its id
-   and of type t; the cache stays truthful.
-   PARTIAL: the full statement also says the listing is complete for the
-   repository's own loose objects and packs and has no duplicates; that part is
-   not proved here (it is checked against `git cat-file --batch-all-objects` on
-   every run), and the alternates are not iterated at all (known finding
-   iter-omits-alternates). *)
-Theorem C11_iter_sound_partial : forall pol r st t st' res,
+(* IterEncodedObjects(t) succeeds; everything it lists is the content of its id and
+   of type t; the cache stays truthful *)
+Theorem C11_iter_sound : forall pol r st t st' res,
   evicts_only pol -> store_ok r = true -> cache_ok (content r) (rs_cache st) ->
   iter_objects pol r st t = (st', res) ->
   cache_ok (content r) (rs_cache st') /\
   exists l, res = Some l /\ forall id o, In (id, o) l -> content r id = Some o /\ typed t o = RFound o.
 Proof. intros pol r st t st' res P OK. exact (iter_objects_ok pol P r OK st t st' res). Qed.
-Print Assumptions C11_iter_sound_partial.
+Print Assumptions C11_iter_sound.
+
+(* ... and the listing is exactly the ids stored in the repository's OWN loose
+   directory and packs whose object has type t, each once (the loose directory
+   listing has no duplicate names) *)
+Theorem C11_iter_complete : forall pol r t st st' res,
+  evicts_only pol -> store_ok r = true ->
+  nodup_ids (map fst (s_loose (r_main r))) = true -> cache_ok (content r) (rs_cache st) ->
+  iter_objects pol r st t = (st', res) ->
+  exists l, res = Some l /\ NoDup (map fst l) /\
+  forall id, In id (map fst l) <-> (has_copy (r_main r) id /\ wanted r t id).
+Proof. intros pol r t st st' res P OK. exact (iter_objects_full pol P r OK t st st' res). Qed.
+Print Assumptions C11_iter_complete.
+
+(* the FULL statement of the property also wants the objects of the alternates
+   listed (git cat-file --batch-all-objects does): false of the code as it is —
+   known finding iter-omits-alternates.  Witness: ex_repo below stores [9] in its
+   alternate; every lookup finds it, the iteration does not list it. *)
 
 (* any sequence of reads, from any truthful cache and any hints: every answer
    (except the listing of RdIter, see above) is the specification's *)
@@ -112,6 +124,14 @@ Example C11_example_reads :
   /\ spec_get ex_repo None [3] = RFound (Obj TBlob [119; 111; 114; 108; 100; 44; 33; 104; 101; 108; 108; 111])
   /\ prefix_ids ex_repo [] = [[1]; [2]; [3]; [9]].
 Proof. vm_compute. repeat split. Qed.
+
+Example C11_iter_alternates_refuted :
+  spec_has ex_repo [9] = true /\
+  match snd (iter_objects keep_all ex_repo (init_rstate ex_repo) None) with
+  | Some l => map fst l = [[1]; [2]; [3]]
+  | None => False
+  end.
+Proof. vm_compute. split; reflexivity. Qed.
 
 (* content addressing is needed: two copies of an id that disagree are rejected *)
 Example C11_disagreeing_copies_rejected :
